@@ -49,6 +49,8 @@ func (ex *Exec) freshResults(st *State, sig *types.Signature, prefix string) []V
 		var fs []*Term
 		rets = append(rets, freshVal(sig.Results().At(i).Type(), fmt.Sprintf("%s%d", prefix, i), &fs))
 		ex.addFacts(nil, fs)
+		ex.assumeOlder(rets[len(rets)-1])
+		ex.assumeSealed(rets[len(rets)-1], sig.Results().At(i).Type())
 	}
 	return rets
 }
@@ -449,7 +451,7 @@ func (e *SpecEnv) addrOf(x ast.Expr) *Term {
 					t = pt.Elem()
 				}
 			}
-			p = Fld(p, i)
+			p = Fld(p, fieldID(t.Underlying().(*types.Struct), i))
 			t = t.Underlying().(*types.Struct).Field(i).Type()
 		}
 		return p
